@@ -38,6 +38,8 @@ type Case struct {
 	// have the tested name as a prefix or suffix (pz as a deepObject / plain value, zp); they are
 	// valid, so neither the decoded value nor any verdict about "p" may change
 	Neighbours bool `json:"neighbours,omitempty"`
+	// PathLevel: the parameter is declared on the path item, next to a same-named operation parameter of another location
+	PathLevel bool `json:"path_level,omitempty"`
 	// RepeatedNeighbour (query only): the operation also declares an exploded array parameter "tag", and
 	// the request carries it twice (tag=a&tag=b): a key that occurs twice but belongs to another parameter
 	RepeatedNeighbour bool `json:"repeated_neighbour,omitempty"`
@@ -147,10 +149,21 @@ func build(c Case) (*openapi3.T, *openapi3.Parameter, error) {
 	if c.RepeatedNeighbour && c.In == "query" {
 		params = append(params, M{"name": "tag", "in": "query", "schema": M{"type": "array", "items": M{"type": "string"}}})
 	}
-	raw := kinx.Doc(M{path: M{"get": M{"parameters": params, "responses": M{"200": M{"description": "d"}}}}}, M{"schemas": jv.Clone(sharedSchemas)})
+	pi := M{"get": M{"parameters": params, "responses": M{"200": M{"description": "d"}}}}
+	if c.PathLevel {
+		// declared on the path item; the operation has a parameter of the same name in another location,
+		// which is another parameter and overrides nothing
+		other := map[string]string{"query": "header", "header": "cookie", "cookie": "query", "path": "query"}[c.In]
+		pi["parameters"] = []any{p}
+		pi["get"].(M)["parameters"] = append([]any{M{"name": "p", "in": other, "schema": M{"type": "string"}}}, params[1:]...)
+	}
+	raw := kinx.Doc(M{path: pi}, M{"schemas": jv.Clone(sharedSchemas)})
 	doc, err := kinx.Load(raw)
 	if err != nil {
 		return nil, nil, err
+	}
+	if c.PathLevel {
+		return doc, doc.Paths.Find(path).Parameters[0].Value, nil
 	}
 	return doc, doc.Paths.Find(path).Get.Parameters[0].Value, nil
 }
@@ -689,6 +702,7 @@ func gen(t *rapid.T) Case {
 	c := Case{In: cl.in, Style: cl.style, Explode: cl.explode, Schema: sh.schema, Shape: sh.name, Presence: "present"}
 	c.Required = rapid.Bool().Draw(t, "required")
 	c.Neighbours = cl.in != "path" && rapid.IntRange(0, 2).Draw(t, "neighbours") == 0
+	c.PathLevel = rapid.IntRange(0, 3).Draw(t, "pathlevel") == 0
 	neutral := true
 	if st, ex := effective(c); cl.in == "query" && st == "form" && ex && strings.HasPrefix(sh.name, "object") {
 		// the members of an exploded form object are top-level query keys: every other key of the
